@@ -200,6 +200,8 @@ func TestAccept(t *testing.T) {
 	rapid.Check(t, func(t *rapid.T) {
 		o := j5sgen.DefaultOpts()
 		o.Mask = mask(r)
+		o.Entities = true // "services, topics, entities": all of the documented language
+		o.OddMethodNames = true
 		b, classes := j5sgen.Draw(t, o)
 		c := srcCase{Files: b.Render(), Valid: true, What: "generated"}
 		cls := []string{}
